@@ -1,4 +1,5 @@
 import PnVerif.Lemmas.ToolsSound
+import PnVerif.Lemmas.ToolsRepaired
 import PnVerif.Lemmas.ToolsDiff
 import PnVerif.Lemmas.Accept
 import PnVerif.Props.C04
@@ -12,16 +13,16 @@ open PnVerif.Spec PnVerif.Header PnVerif.Tools
 /-! ### validate_sound: full statement, refuted (finding: truncated header accepted) -/
 
 /-- Full-strength statement: whatever the validator accepts, the independent decoder accepts. -/
-def validate_sound_Statement : Prop :=
-  ∀ b : Bytes, validate b = true → specDecode b ≠ none
+def validate_sound_Statement (c : VCfg) : Prop :=
+  ∀ b : Bytes, validate c b = true → specDecode b ≠ none
 
 /-- "CDF\x01" + numrecs and nothing else: 8 bytes, the rest of the header is missing.  val_fetch
     zero-fills its window, so the validator reads three ABSENT lists and reports a valid file. -/
 def truncatedFile : Bytes := [0x43, 0x44, 0x46, 1, 0, 0, 0, 0]
 
-theorem validate_sound_counterexample : ¬ validate_sound_Statement := by
+theorem validate_sound_counterexample : ¬ validate_sound_Statement VCfg.asIs := by
   intro hS
-  have h1 : validate truncatedFile = true := by decide
+  have h1 : validate VCfg.asIs truncatedFile = true := by decide
   have h2 : specDecode truncatedFile = none := by decide
   exact hS _ h1 h2
 
@@ -34,19 +35,92 @@ theorem namesNoNul_of_encodable (d : Schema) (he : Encodable d) : NamesNoNul d :
     their widths and names hold no NUL (`Encodable`: no sign bit in a NON_NEG / OFFSET field), every empty list
     is written as ABSENT (flag `tag`) — whatever ncvalidator accepts (null padding: flag `pad`) is accepted by
     the independent BNF decoder, which returns the very header the validator read. -/
-theorem validate_sound_partial (b : Bytes) (h : Hdr) (info : Info) (hg : vGetNC b = .ok (h, info, VFlags.ok))
+theorem validate_sound_partial (c : VCfg) (b : Bytes) (h : Hdr) (info : Info) (hg : vGetNC c b = .ok (h, info, VFlags.ok))
     (he : Encodable h) (hl : Hdr.len h ≤ b.length) : specDecode b = some h := by
-  obtain ⟨rest, rfl⟩ := vGetNC_canonical b h info hg (namesNoNul_of_encodable h he) hl
+  obtain ⟨rest, rfl⟩ := vGetNC_canonical c b h info hg (namesNoNul_of_encodable h he) hl
   exact PnVerif.Props.C04.specDecode_encode h rest he
 
 /-- the strictness behind it: an accepted file begins with exactly the bytes the library's writer produces for
     the header the validator read — magic, every tag and count, every padding byte (all null), every field. -/
-theorem validate_canonical (b : Bytes) (h : Hdr) (info : Info) (hg : vGetNC b = .ok (h, info, VFlags.ok))
+theorem validate_canonical (c : VCfg) (b : Bytes) (h : Hdr) (info : Info) (hg : vGetNC c b = .ok (h, info, VFlags.ok))
     (h0 : NamesNoNul h) (hl : Hdr.len h ≤ b.length) : ∃ rest, b = encodeRaw h ++ rest :=
-  vGetNC_canonical b h info hg h0 hl
+  vGetNC_canonical c b h info hg h0 hl
+
+/-! ### the repaired validator (findings C20-F3, F4, F6 repaired: flags strictLen, strictSign, dimid64) -/
+
+/-- what `validate` returning true means -/
+theorem validate_true (c : VCfg) (b : Bytes) (hv : validate c b = true) :
+    ∃ h info fl, vGetNC c b = .ok (h, info, fl) ∧ fl.pad = true ∧ (c.strictLen = true → Hdr.len h ≤ b.length) := by
+  unfold validate at hv
+  cases hg : vGetNC c b with
+  | error e => rw [hg] at hv; cases hv
+  | ok r =>
+    obtain ⟨h, info, fl⟩ := r
+    rw [hg] at hv
+    simp only [] at hv
+    by_cases hc : c.strictLen = true ∧ b.length < h.len
+    · rw [if_pos hc] at hv; cases hv
+    · rw [if_neg hc] at hv
+      exact ⟨h, info, fl, rfl, hv, fun hs => by
+        by_cases hlt : b.length < h.len
+        · exact absurd ⟨hs, hlt⟩ hc
+        · omega⟩
+
+/-- `validate_sound_repaired`: with the three repairs in place the hypotheses "the file is long enough" and
+    "no field has its sign bit set" of `validate_sound_partial` are gone — they are what the repaired code tests.
+    What is left: names without NUL byte (the validator does not look inside names), numrecs is a NON_NEG (the
+    specification also allows the STREAMING value, which the independent decoder does not accept), and every
+    empty list written as ABSENT (ghost flag `tag`; see `repaired_array_tag` for what F5's repair guarantees). -/
+theorem validate_sound_repaired (c : VCfg) (hl : c.strictLen = true) (hs : c.strictSign = true) (hd : c.dimid64 = true)
+    (b : Bytes) (h : Hdr) (info : Info) (fl : VFlags) (hg : vGetNC c b = .ok (h, info, fl)) (hv : validate c b = true)
+    (ht : fl.tag = true) (h0 : NamesNoNul h) (hnr : h.numrecs < nnLim h.fmt) : specDecode b = some h := by
+  obtain ⟨h', info', fl', hg', hp, hlen⟩ := validate_true c b hv
+  rw [hg] at hg'
+  simp only [Except.ok.injEq, Prod.mk.injEq] at hg'
+  obtain ⟨rfl, rfl, rfl⟩ := hg'
+  have hfl : fl = VFlags.ok := by cases fl; simp only [] at hp ht; subst hp ht; rfl
+  subst hfl
+  -- the header is Encodable: from the reader's own tests
+  have he : Encodable h := by
+    unfold vGetNC at hg
+    cases hm : vMagic b with
+    | error e => rw [hm] at hg; cases hg
+    | ok f =>
+      rw [hm] at hg
+      simp only [] at hg
+      cases hb : vBody c f (b.drop 4) with
+      | error e => rw [hb] at hg; cases hg
+      | ok r =>
+        obtain ⟨⟨h', fl'⟩, s'⟩ := r
+        rw [hb] at hg
+        simp only [] at hg
+        cases hpp : vPostPass h' with
+        | error e => rw [hpp] at hg; cases hg
+        | ok i =>
+          rw [hpp] at hg
+          simp only [Except.ok.injEq, Prod.mk.injEq] at hg
+          obtain ⟨rfl, _, _⟩ := hg
+          exact encodable_of_vBody c hs hd f hb h0 hnr
+  exact validate_sound_partial c b h info hg he (hlen hl)
+
+/-- F5 repaired: every list an accepting run has read starts with ABSENT or with the list's own tag -/
+theorem repaired_array_tag {α : Type} (c : VCfg) (ht : c.strictTag = true) (ver tag maxN : Nat) (errMax : VErr)
+    (items : Nat → VP (List α × VFlags)) (s s' : Bytes) (xs : List α) (fl : VFlags)
+    (h : vArray c ver tag maxN errMax items s = .ok ((xs, fl), s')) :
+    ∃ t s1, vTag s = .ok (t, s1) ∧ (t = 0 ∨ t = tag) :=
+  vArray_strictTag c ht ver tag maxN errMax items h
+
+/-- the witnesses of F3..F6 are rejected by the repaired variant and accepted by the pinned one -/
+example : validate VCfg.repaired truncatedFile = false ∧ validate VCfg.asIs truncatedFile = true := by decide
+example : validate VCfg.repaired ([0x43, 0x44, 0x46, 1, 0x80, 0, 0, 0] ++ List.replicate 24 0) = false ∧
+    validate VCfg.asIs ([0x43, 0x44, 0x46, 1, 0x80, 0, 0, 0] ++ List.replicate 24 0) = true := by decide
+example : validate VCfg.repaired ([0x43, 0x44, 0x46, 1, 0, 0, 0, 0, 0, 0, 0, 11, 0, 0, 0, 0] ++ List.replicate 16 0) = false ∧
+    validate VCfg.asIs ([0x43, 0x44, 0x46, 1, 0, 0, 0, 0, 0, 0, 0, 11, 0, 0, 0, 0] ++ List.replicate 16 0) = true := by decide
+/-- the STREAMING value of numrecs stays accepted -/
+example : validate VCfg.repaired ([0x43, 0x44, 0x46, 1, 0xff, 0xff, 0xff, 0xff] ++ List.replicate 24 0) = true := by decide
 
 /-- a file without the classic magic (or shorter than 8 bytes) is rejected -/
-theorem validate_magic (b : Bytes) (hv : validate b = true) :
+theorem validate_magic (c : VCfg) (b : Bytes) (hv : validate c b = true) :
     ∃ f : Fmt, b = magicBytes f ++ b.drop 4 ∧ 8 ≤ b.length := by
   unfold validate vGetNC at hv
   cases hm : vMagic b with
@@ -61,21 +135,28 @@ theorem validate_magic (b : Bytes) (hv : validate b = true) :
     library's own limits with at most one record dimension and dimension ids in range (`VLimits`), and the
     library's own reader accepts the layout (`postPass`: shapes, sizes, begins in order without overlap).  It reads
     back exactly `d` and derives exactly the library's layout `info`. -/
-theorem validate_accepts_encoded (d : Schema) (data : Bytes) (info : Info) (he : Encodable d) (hl : VLimits d)
+theorem validate_accepts_encoded (c : VCfg) (d : Schema) (data : Bytes) (info : Info) (he : Encodable d) (hl : VLimits d)
     (hp : postPass d = .ok info) :
-    validate (encodeRaw d ++ data) = true ∧ vGetNC (encodeRaw d ++ data) = .ok (d, info, VFlags.ok) := by
-  have h := vGetNC_put d data info he hl hp
+    validate c (encodeRaw d ++ data) = true ∧ vGetNC c (encodeRaw d ++ data) = .ok (d, info, VFlags.ok) := by
+  have h := vGetNC_put c d data info he hl hp
   refine ⟨?_, h⟩
   unfold validate
   rw [h]
+  simp only []
+  have hlen : ¬ (c.strictLen = true ∧ (encodeRaw d ++ data).length < Hdr.len d) := by
+    intro ⟨_, hlt⟩
+    have := PnVerif.Props.C04.encode_length d (namesNoNul_of_encodable d he)
+    rw [List.length_append, this] at hlt
+    omega
+  rw [if_neg hlen]
   rfl
 
 /-- the same for every layout the format specification allows (`Spec.LayoutValid`: valid dimension references,
     record dimension first only, variables after the header in definition order without overlap, gaps anywhere) -/
-theorem validate_accepts_layoutValid (d : Schema) (data : Bytes) (he : Encodable d) (hl : VLimits d)
-    (hv : d.LayoutValid (Hdr.len d)) : validate (encodeRaw d ++ data) = true := by
+theorem validate_accepts_layoutValid (c : VCfg) (d : Schema) (data : Bytes) (he : Encodable d) (hl : VLimits d)
+    (hv : d.LayoutValid (Hdr.len d)) : validate c (encodeRaw d ++ data) = true := by
   obtain ⟨info, hp⟩ := postPass_ok d hv
-  exact (validate_accepts_encoded d data info he hl hp).1
+  exact (validate_accepts_encoded c d data info he hl hp).1
 
 /-! non-vacuity: the CDF-1 header of C04 (gap before the first variable, stale and saturated vsize, zero-length
     attribute, record variable) meets every hypothesis -/
@@ -83,10 +164,11 @@ example : VLimits PnVerif.Props.C04.exampleHdr := by
   constructor <;> simp [PnVerif.Props.C04.exampleHdr, NC_MAX_DIMS, NC_MAX_ATTRS, NC_MAX_VARS, NC_MAX_INT, NC_MAX_VAR_DIMS, vsizeLim]
 
 set_option maxRecDepth 100000 in
-example : validate (encodeRaw PnVerif.Props.C04.exampleHdr ++ [1, 2, 3]) = true := by rfl
+example : validate VCfg.asIs (encodeRaw PnVerif.Props.C04.exampleHdr ++ [1, 2, 3]) = true ∧
+    validate VCfg.repaired (encodeRaw PnVerif.Props.C04.exampleHdr ++ [1, 2, 3]) = true := ⟨by rfl, by rfl⟩
 
 set_option maxRecDepth 100000 in
-example : ∃ info, vGetNC (encodeRaw PnVerif.Props.C04.exampleHdr) = .ok (PnVerif.Props.C04.exampleHdr, info, VFlags.ok) ∧
+example : ∃ info, vGetNC VCfg.repaired (encodeRaw PnVerif.Props.C04.exampleHdr) = .ok (PnVerif.Props.C04.exampleHdr, info, VFlags.ok) ∧
     Hdr.len PnVerif.Props.C04.exampleHdr ≤ (encodeRaw PnVerif.Props.C04.exampleHdr).length :=
   ⟨{ xsz := 168, beginVar := 400, beginRec := 512, recsize := 3, numRecVars := 1, shapes := [[3], [0, 3]], lens := [12, 4] },
    by rfl, by decide⟩
@@ -168,7 +250,7 @@ theorem diff_iff_logical_eq_counterexample_ncmpidiff : ¬ diff_iff_logical_eq_St
     difference is reported exactly when the files have the same format and the same logical content.  All
     definition orders, all layouts, all types and shapes, any number of dimensions/attributes/variables. -/
 theorem diff_iff_logical_eq_partial (cfg : DiffCfg) (a b : LFile) (wa : LWF a) (wb : LWF b) (nb : NoByte cfg a)
-    (ag : LenAgree cfg a b) (hn : a.numrecs = b.numrecs) :
+    (ag : LenAgree cfg a b) (hn : cfg.cmpNumrecs = true ∨ a.numrecs = b.numrecs) :
     (toolDiff cfg a b).same = true ↔ LogicalEq a b :=
   ⟨fun h => logicalEq_of_toolDiff cfg a b wa wb nb ag hn ((same_iff _).mp h), fun E => diff_complete cfg a b wa wb E⟩
 
@@ -177,7 +259,25 @@ theorem cdfdiff_iff_logical_eq (a b : LFile) (wa : LWF a) (wb : LWF b) (hn : a.n
     (toolDiff cdfdiffCfg a b).same = true ↔ LogicalEq a b :=
   diff_iff_logical_eq_partial cdfdiffCfg a b wa wb
     ⟨fun h => absurd h (by decide), fun _ _ => ⟨fun h => absurd h (by decide), fun h => absurd h (by decide)⟩⟩
-    (lenAgree_of_stored _ a b rfl) hn
+    (lenAgree_of_stored _ a b rfl) (Or.inr hn)
+
+/-- cdfdiff with the repair of C20-F1 (numrecs compared): no hypothesis left — it reports no difference exactly
+    when the two files have the same format and the same logical content -/
+theorem cdfdiff_repaired_iff_logical_eq (a b : LFile) (wa : LWF a) (wb : LWF b) :
+    (toolDiff cdfdiffRepaired a b).same = true ↔ LogicalEq a b :=
+  diff_iff_logical_eq_partial cdfdiffRepaired a b wa wb
+    ⟨fun h => absurd h (by decide), fun _ _ => ⟨fun h => absurd h (by decide), fun h => absurd h (by decide)⟩⟩
+    (lenAgree_of_stored _ a b rfl) (Or.inl rfl)
+
+/-- ncmpidiff with the repair of C20-F2 (`case NC_BYTE` present): the hypothesis on NC_BYTE is gone -/
+theorem ncmpidiff_repaired_iff_logical_eq (a b : LFile) (wa : LWF a) (wb : LWF b) (ag : LenAgree ncmpidiffRepaired a b)
+    (hn : a.numrecs = b.numrecs) : (toolDiff ncmpidiffRepaired a b).same = true ↔ LogicalEq a b :=
+  diff_iff_logical_eq_partial ncmpidiffRepaired a b wa wb
+    ⟨fun h => absurd h (by decide), fun _ _ => ⟨fun h => absurd h (by decide), fun h => absurd h (by decide)⟩⟩ ag (Or.inr hn)
+
+/-- the two witnesses are reported by the repaired tools -/
+example : (toolDiff cdfdiffRepaired recA recB).same = false ∧ (toolDiff cdfdiffRepaired recB recA).same = false ∧
+    (toolDiff ncmpidiffRepaired recA recC).same = false := by decide
 
 /-- Full-strength statement of `diff_symm` -/
 def diff_symm_Statement (cfg : DiffCfg) : Prop :=
@@ -191,10 +291,11 @@ theorem diff_symm_counterexample_cdfdiff : ¬ diff_symm_Statement cdfdiffCfg := 
 
 /-- `diff_symm_partial` -/
 theorem diff_symm_partial (cfg : DiffCfg) (a b : LFile) (wa : LWF a) (wb : LWF b) (ra : RecByDims a) (rb : RecByDims b)
-    (na : NoByte cfg a) (nb : NoByte cfg b) (ag : LenAgree cfg a b) (ag' : LenAgree cfg b a) (hn : a.numrecs = b.numrecs) :
+    (na : NoByte cfg a) (nb : NoByte cfg b) (ag : LenAgree cfg a b) (ag' : LenAgree cfg b a)
+    (hn : cfg.cmpNumrecs = true ∨ a.numrecs = b.numrecs) :
     (toolDiff cfg a b).same = (toolDiff cfg b a).same := by
   have h1 := diff_iff_logical_eq_partial cfg a b wa wb na ag hn
-  have h2 := diff_iff_logical_eq_partial cfg b a wb wa nb ag' hn.symm
+  have h2 := diff_iff_logical_eq_partial cfg b a wb wa nb ag' (hn.imp id Eq.symm)
   cases hx : (toolDiff cfg a b).same <;> cases hy : (toolDiff cfg b a).same
   · rfl
   · exact absurd (h1.mpr (LogicalEq.symm rb ra (h2.mp hy))) (by rw [hx]; simp)
@@ -207,10 +308,10 @@ theorem diff_symm_partial (cfg : DiffCfg) (a b : LFile) (wa : LWF a) (wb : LWF b
 theorem diff_layout_invariant (cfg : DiffCfg) (a b b' : LFile) (wa : LWF a) (wb : LWF b) (wb' : LWF b')
     (ra : RecByDims a) (rb : RecByDims b) (rb' : RecByDims b') (nb : NoByte cfg a) (ag : LenAgree cfg a b)
     (ag' : LenAgree cfg a b')
-    (hn : a.numrecs = b.numrecs) (E : LogicalEq b b') :
+    (hn : cfg.cmpNumrecs = true ∨ a.numrecs = b.numrecs) (E : LogicalEq b b') :
     (toolDiff cfg a b).same = (toolDiff cfg a b').same := by
   have h1 := diff_iff_logical_eq_partial cfg a b wa wb nb ag hn
-  have h2 := diff_iff_logical_eq_partial cfg a b' wa wb' nb ag' (hn.trans E.numrecs)
+  have h2 := diff_iff_logical_eq_partial cfg a b' wa wb' nb ag' (hn.imp id (fun x => x.trans E.numrecs))
   cases hx : (toolDiff cfg a b).same <;> cases hy : (toolDiff cfg a b').same
   · rfl
   · exact absurd (h1.mpr (LogicalEq.trans rb' ra (h2.mp hy) (LogicalEq.symm rb rb' E))) (by rw [hx]; simp)
@@ -230,21 +331,21 @@ theorem diff_layout_invariant_shift (cfg : DiffCfg) (a : LFile) (h : Hdr) (recsi
 /-! ### `diff_detects_single_edit`: one value, one attribute, one name, one dimension length -/
 
 theorem not_same_of_not_logicalEq (cfg : DiffCfg) (a b : LFile) (wa : LWF a) (wb : LWF b) (nb : NoByte cfg a)
-    (ag : LenAgree cfg a b) (hn : a.numrecs = b.numrecs) (hne : ¬ LogicalEq a b) : (toolDiff cfg a b).same = false := by
+    (ag : LenAgree cfg a b) (hn : cfg.cmpNumrecs = true ∨ a.numrecs = b.numrecs) (hne : ¬ LogicalEq a b) : (toolDiff cfg a b).same = false := by
   cases hs : (toolDiff cfg a b).same with
   | false => rfl
   | true => exact absurd ((diff_iff_logical_eq_partial cfg a b wa wb nb ag hn).mp hs) hne
 
 /-- one value of one variable differs (any type the tool compares, any record that exists) -/
 theorem diff_detects_value_edit (cfg : DiffCfg) (a b : LFile) (wa : LWF a) (wb : LWF b) (nb : NoByte cfg a)
-    (ag : LenAgree cfg a b) (hn : a.numrecs = b.numrecs) (nm : Bytes) (v w : LVar) (r : Nat)
+    (ag : LenAgree cfg a b) (hn : cfg.cmpNumrecs = true ∨ a.numrecs = b.numrecs) (nm : Bytes) (v w : LVar) (r : Nat)
     (hv : findVar a.vars nm = some v) (hw : findVar b.vars nm = some w)
     (hr : r < (if v.isRec then a.numrecs else 1)) (hd : v.data r ≠ w.data r) : (toolDiff cfg a b).same = false :=
   not_same_of_not_logicalEq cfg a b wa wb nb ag hn (fun E => hd ((E.vars nm v w hv hw).data r hr))
 
 /-- one attribute differs (global, or of a variable present in both files): type, length or any value -/
 theorem diff_detects_attribute_edit (cfg : DiffCfg) (a b : LFile) (wa : LWF a) (wb : LWF b) (nb : NoByte cfg a)
-    (ag : LenAgree cfg a b) (hn : a.numrecs = b.numrecs) (an : Bytes)
+    (ag : LenAgree cfg a b) (hn : cfg.cmpNumrecs = true ∨ a.numrecs = b.numrecs) (an : Bytes)
     (hd : findAtt a.gatts an ≠ findAtt b.gatts an ∨
           ∃ nm v w, findVar a.vars nm = some v ∧ findVar b.vars nm = some w ∧ findAtt v.atts an ≠ findAtt w.atts an) :
     (toolDiff cfg a b).same = false :=
@@ -255,7 +356,7 @@ theorem diff_detects_attribute_edit (cfg : DiffCfg) (a b : LFile) (wa : LWF a) (
 
 /-- one name differs: a variable, dimension or global attribute of one file has no namesake in the other -/
 theorem diff_detects_name_edit (cfg : DiffCfg) (a b : LFile) (wa : LWF a) (wb : LWF b) (nb : NoByte cfg a)
-    (ag : LenAgree cfg a b) (hn : a.numrecs = b.numrecs) (nm : Bytes)
+    (ag : LenAgree cfg a b) (hn : cfg.cmpNumrecs = true ∨ a.numrecs = b.numrecs) (nm : Bytes)
     (hd : (findVar a.vars nm).isSome ≠ (findVar b.vars nm).isSome ∨ (findDim a.dims nm).isSome ≠ (findDim b.dims nm).isSome ∨
           (findAtt a.gatts nm).isSome ≠ (findAtt b.gatts nm).isSome) :
     (toolDiff cfg a b).same = false :=
@@ -267,7 +368,7 @@ theorem diff_detects_name_edit (cfg : DiffCfg) (a b : LFile) (wa : LWF a) (wb : 
 
 /-- one dimension length differs -/
 theorem diff_detects_dimlen_edit (cfg : DiffCfg) (a b : LFile) (wa : LWF a) (wb : LWF b) (nb : NoByte cfg a)
-    (ag : LenAgree cfg a b) (hn : a.numrecs = b.numrecs) (nm : Bytes) (d e : Dim)
+    (ag : LenAgree cfg a b) (hn : cfg.cmpNumrecs = true ∨ a.numrecs = b.numrecs) (nm : Bytes) (d e : Dim)
     (hd : findDim a.dims nm = some d) (he : findDim b.dims nm = some e) (hs : d.size ≠ e.size) :
     (toolDiff cfg a b).same = false :=
   not_same_of_not_logicalEq cfg a b wa wb nb ag hn (fun E => by
@@ -309,7 +410,8 @@ example : NoByte ncmpidiffCfg intA ∧ LenAgree ncmpidiffCfg intA intB ∧ intA.
 
 def obligations : List String := [
   "validate_accepts_encoded", "validate_accepts_layoutValid", "validate_sound_counterexample", "validate_sound_partial",
-  "validate_canonical", "validate_magic",
+  "validate_canonical", "validate_magic", "validate_sound_repaired", "repaired_array_tag",
+  "cdfdiff_repaired_iff_logical_eq", "ncmpidiff_repaired_iff_logical_eq",
   "diff_refl", "diff_complete", "diff_iff_logical_eq_counterexample_cdfdiff", "diff_iff_logical_eq_counterexample_ncmpidiff",
   "diff_iff_logical_eq_partial", "cdfdiff_iff_logical_eq", "diff_symm_counterexample_cdfdiff", "diff_symm_partial",
   "diff_layout_invariant", "diff_layout_invariant_shift", "diff_detects_value_edit", "diff_detects_attribute_edit",
